@@ -349,6 +349,32 @@ def run(chk):
             else:
                 uv_ok = False
         uv_ok = uv_ok and n_tests >= 1
+        if not uv_ok and uvt is not None:
+            # the same table read from a selection on the requirement's variant (`!matches!(r, Discouraged)`, `match r {..}`):
+            # false exactly on the rows where the requirement is Discouraged
+            is_req = lambda x: isinstance(x, tuple) and len(x) == 3 and x[0] == "field" and x[2] == "user_verification"
+            rows_ok, n_disc, n_other = True, 0, 0
+            for cs, v in normal.cases_deep(uvt):
+                disc = None
+                for t, l in cs:
+                    vt = flow.variant_test(t, l)
+                    if vt is not None and is_req(vt[0]) and vt[1] == "Discouraged":
+                        disc = vt[2]
+                    else:
+                        e = flow.eq_test(t, l)
+                        if e is not None and len(e[0]) == 2 and e[1] is not None:
+                            a_, b_ = tuple(e[0])
+                            for x_, y_ in ((a_, b_), (b_, a_)):
+                                if is_req(x_) and isinstance(y_, tuple) and len(y_) == 4 and y_[0] == "agg" and y_[2] == "Discouraged":
+                                    disc = e[1]
+                if disc is True:
+                    n_disc += 1
+                    rows_ok = rows_ok and v == ("const", 0)
+                else:
+                    # not Discouraged, or no requirement given at all (then the conditions say the selection is absent)
+                    n_other += 1
+                    rows_ok = rows_ok and v == ("const", 1) and (disc is False or any(flow.asserts_fail(t, l, lambda x: True) for t, l in cs) or not cs)
+            uv_ok = rows_ok and n_disc >= 1 and n_other >= 1
         chk.ob("R6 waived presence", "R6|Client::%s|up-always-true" % nm, up_ok, where(co, cbk), "Options.up = %s" % flow.term_str(d.get("up")))
         chk.ob("R6 waived presence", "R6|Client::%s|uv-from-requirement" % nm, uv_ok, where(co, cbk), "Options.uv = %s" % flow.term_str(uvt)[:200])
     chk.floor("R1", 12)
